@@ -118,3 +118,22 @@ func VerifEncodeDropTx(db *DB) []byte {
 	hdr := ltx.Header{PageSize: verifP, Commit: 0, MinTXID: pos0.TXID + 1, MaxTXID: pos0.TXID + 1, PreApplyChecksum: pos0.PostApplyChecksum, NodeID: 99}
 	return verifEncodeLTX(hdr, nil, nil, ltx.ChecksumFlag)
 }
+
+// VerifSetStoreID gives the store a concrete node id.
+func VerifSetStoreID(s *Store, id uint64) { s.id = id }
+
+// VerifCommitPage1 commits one rollback-journal transaction that rewrites page 1 (symbolic content).
+func VerifCommitPage1(db *DB) ltx.Pos {
+	ctx := context.Background()
+	n0 := db.PageN()
+	jf, err := db.CreateJournal()
+	must(err)
+	must(db.WriteJournalAt(ctx, jf, verifJournalHeader(0, 0, n0), 0, 1))
+	dbf, err := db.OpenDatabase(ctx)
+	must(err)
+	p := rt.Bytes("late.commit", verifP)
+	verifHeaderPage(p, n0, false)
+	must(db.WriteDatabaseAt(ctx, dbf, p, 0, 1))
+	must(db.RemoveJournal(ctx))
+	return db.Pos()
+}
